@@ -186,17 +186,25 @@ def run(spec):
         pkgs = ['pk%d_%s' % (i, rnd.choice('abc')) for i in range(depth)]
         d = root
         os.makedirs(d, exist_ok=True)
+        # layout: regular packages under an explicit sys_path, or the default (smart) project
+        # with regular, namespace (no __init__.py) or mixed directories below the project root
+        layout = rnd.choice(['regular_explicit', 'regular_smart', 'namespace_smart', 'mixed_smart'])
         for p in pkgs:
             d = os.path.join(d, p)
             os.makedirs(d, exist_ok=True)
-            with open(os.path.join(d, '__init__.py'), 'w') as fh:
-                fh.write('')
+            if layout.startswith('regular') or (layout == 'mixed_smart' and rnd.random() < 0.5):
+                with open(os.path.join(d, '__init__.py'), 'w') as fh:
+                    fh.write('')
         modname = 'mod_' + rnd.choice(['x', 'yy', 'zeta'])
         path = os.path.join(d, modname + '.py')
         with open(path, 'w') as fh:
             fh.write(text)
         expect_module = '.'.join(pkgs + [modname])
-        project = jedi.Project(root, sys_path=[root], smart_sys_path=False)
+        if layout == 'regular_explicit':
+            project = jedi.Project(root, sys_path=[root], smart_sys_path=False)
+        else:
+            project = jedi.Project(root)
+        rec.ev('c18:layout_' + layout)
         runtime_names = _import_oracle(root, expect_module)
     res = {'id': spec['id'], 'digest': digest(text), 'events': rec.events, 'violations': [],
            'nontrivial': False}
